@@ -1,5 +1,5 @@
 // Appended to src/component.rs: re-exports test constructors of the private `datatype` module so
 // that harness modules outside `component` (coding.rs) can build small components.
-pub(crate) use super::datatype::verif::residual_from_raw;
-pub(crate) use super::datatype::verif::set_sum_quotients;
-pub(crate) use super::datatype::verif::set_block_and_warmup;
+pub(crate) use crate::component::datatype::verif::residual_from_raw;
+pub(crate) use crate::component::datatype::verif::set_sum_quotients;
+pub(crate) use crate::component::datatype::verif::set_block_and_warmup;
